@@ -125,6 +125,7 @@ func c07Child(ctx *runCtx, spec string) {
 				key := fmt.Sprintf("ctr-%d", keyN)
 				callers := []int{8, 16, 24}[round%3]
 				calls := make([]c07Call, callers)
+				fp := c.Fingerprint()
 				var wg sync.WaitGroup
 				start := make(chan struct{})
 				for i := 0; i < callers; i++ {
@@ -176,6 +177,11 @@ func c07Child(ctx *runCtx, spec string) {
 				close(start)
 				wg.Wait()
 				ctx.rep.Eval(1)
+				if c.Fingerprint() != fp {
+					ctx.rep.Inconclusive(fmt.Sprintf("%s round on %s: membership/routing changed (not a stable cluster)", spec, key))
+					_ = c.WaitStable(30 * time.Second)
+					continue
+				}
 				ctx.rep.Count("rounds_"+op, 1)
 				for _, cc := range calls {
 					ctx.rep.Count("calls_via_"+strings.SplitN(cc.Path, "@", 2)[0], 1)
